@@ -8,7 +8,8 @@
  *         position with a motion from a menu; the removed bytes are located by comparing the first two
  *         files, and the third must be the original with those bytes inserted once more in front of them.
  * MODE 2  direct little models: three line deletes shift the numbered registers ("1p "2p "3p reveal them in
- *         reverse order), an upper-case register name appends, o/O copy the indentation (autoindent).
+ *         reverse order), an upper-case register name appends, o/O copy the indentation (autoindent), J, a quoted
+ *         newline, ^D in insert mode.
  */
 #include "vih.h"
 #include "slots.h"
@@ -175,7 +176,7 @@ void harness(void)
 #else
 	{
 		char exp[OUTSZ];
-		int sub = symx_conc(symx_u8("sub") % 7), n;
+		int sub = symx_conc(symx_u8("sub") % 9), n;
 		char *l1 = file0, *l2 = strchr(l1, '\n') + 1, *l3 = strchr(l2, '\n') + 1, *l4 = strchr(l3, '\n') + 1;
 		n = 0;
 		if (sub == 0) {		/* numbered registers: lines 1..3 deleted; the remaining line, then line 3, line 2, line 1 */
@@ -196,6 +197,22 @@ void harness(void)
 			n = add(exp, n, "\t");
 			n = add(exp, n, txt);
 			n = add(exp, n, "\n");
+		} else if (sub == 7) {	/* ^D takes one level of indentation away (here: the copied tab) and nothing of the typed text */
+			nk[0] = add(keys[0], 0, "4Go ");
+			nk[0] = add(keys[0], nk[0], txt);
+			nk[0] = add(keys[0], nk[0], "\004\033:w\n:q\n");
+			n = add(exp, n, file0);
+			n = add(exp, n, " ");
+			n = add(exp, n, txt);
+			n = add(exp, n, "\n");
+		} else if (sub == 8) {	/* the same in front of the text of an indented line */
+			nk[0] = add(keys[0], 0, "4GI ");
+			nk[0] = add(keys[0], nk[0], txt);
+			nk[0] = add(keys[0], nk[0], "\004\033:w\n:q\n");
+			n = addn(exp, n, file0, l4 - file0);
+			n = add(exp, n, " ");
+			n = add(exp, n, txt);
+			n = add(exp, n, l4 + 1);
 		} else if (sub == 6) {	/* a quoted newline typed in insert mode splits the line like a typed one; the other lines stay */
 			nk[0] = add(keys[0], 0, "2G0aX\026\nY\033:w\n:q\n");
 			n = addn(exp, n, l1, l2 - l1);
@@ -230,6 +247,7 @@ void harness(void)
 		symx_assert(r0.len == n && !memcmp(r0.data, exp, n), sub == 0 ? "line deletions shift the numbered registers" :
 			sub == 1 ? "an upper-case register name appends" : sub == 4 ? "a shifted numbered register is put the way it was deleted (character-wise)" :
 			sub == 5 ? "J joins with one blank and leaves the cursor on it" : sub == 6 ? "multi-line input replaces only its own line" :
+			sub == 7 || sub == 8 ? "^D removes one level of indentation and none of the typed text" :
 			"o / O copy the indentation of the line");
 	}
 #endif
